@@ -11,7 +11,11 @@ package harness
 // MarkerKeeper.SendRestrictionFn is called and its error mapped to a class by the table
 // below.  `bank` lines run the same movement through the real BankKeeper.SendCoins /
 // InputOutputCoinsProv (and DelegateCoinsFromAccountToModule when the receiver is a staking pool)
-// and report whether balances moved.
+// and report whether balances moved.  `bankx` lines drive the real BankKeeper with everything the app
+// composes around the marker restriction: one-to-many / many-to-one InputOutputCoinsProv, DelegateCoins,
+// part of the sender's balance on hold (HoldKeeper.AddHold), sanctioned payers
+// (SanctionKeeper.SanctionAddresses), receivers opted into quarantine (QuarantineKeeper.SetOptIn /
+// SetAutoResponse) — and print the result class and the balances of every touched account.
 //
 // The abstract configuration space is walked systematically: a mixed-radix index over
 // (sender kind × receiver kind × ctx bypass × fee grant × #agents × primary denom slot incl.
@@ -20,6 +24,7 @@ package harness
 // marker the sender/receiver account is, amounts, order) are drawn from the seeded RNG.
 
 import (
+	"errors"
 	"fmt"
 	"sort"
 	"strings"
@@ -28,6 +33,7 @@ import (
 	sdkmath "cosmossdk.io/math"
 
 	sdk "github.com/cosmos/cosmos-sdk/types"
+	sdkerrors "github.com/cosmos/cosmos-sdk/types/errors"
 	authtypes "github.com/cosmos/cosmos-sdk/x/auth/types"
 	banktypes "github.com/cosmos/cosmos-sdk/x/bank/types"
 	minttypes "github.com/cosmos/cosmos-sdk/x/mint/types"
@@ -37,6 +43,8 @@ import (
 	attrtypes "github.com/provenance-io/provenance/x/attribute/types"
 	markerkeeper "github.com/provenance-io/provenance/x/marker/keeper"
 	markertypes "github.com/provenance-io/provenance/x/marker/types"
+	"github.com/provenance-io/provenance/x/quarantine"
+	sanctionerrors "github.com/provenance-io/provenance/x/sanction/errors"
 )
 
 func init() {
@@ -175,7 +183,7 @@ func mkrsendCoins(s string) (sdk.Coins, error) {
 }
 
 // setup builds the configuration on a cached context and returns it with the context flags applied.
-func (e *mkrsendEnv) setup(ws []string, viaBank bool) (ctx sdk.Context, from, to sdk.AccAddress, coins sdk.Coins, err error) {
+func (e *mkrsendEnv) setup(ws []string, viaBank bool, x *mkrsendX) (ctx sdk.Context, from, to sdk.AccAddress, coins sdk.Coins, err error) {
 	ctx, _ = e.base.CacheContext()
 	mk := e.app.MarkerKeeper
 	from, to = e.addr(kvArg(ws, "from")), e.addr(kvArg(ws, "to"))
@@ -188,6 +196,9 @@ func (e *mkrsendEnv) setup(ws []string, viaBank bool) (ctx sdk.Context, from, to
 		// (`fund=<coins>` overrides what the sender gets — to under-fund it; the coins to move may be
 		// an invalid sdk.Coins — unsorted, repeated denom, zero amount —, the funding is its valid sum)
 		fundSrc := coins
+		if x != nil && len(x.ins) > 0 {
+			fundSrc = x.inputsOf(kvArg(ws, "from"))
+		}
 		if fs := kvArg(ws, "fund"); fs != "" {
 			if fundSrc, err = mkrsendCoins(fs); err != nil {
 				return
@@ -203,6 +214,28 @@ func (e *mkrsendEnv) setup(ws []string, viaBank bool) (ctx sdk.Context, from, to
 			if err = e.fund(ctx, from, funding); err != nil {
 				err = fmt.Errorf("fund: %w", err)
 				return
+			}
+		}
+		if x != nil {
+			// the other paying addresses of a many-to-one call hold exactly their inputs
+			seen := map[string]bool{kvArg(ws, "from"): true}
+			for _, in := range x.ins {
+				if seen[in.name] {
+					continue
+				}
+				seen[in.name] = true
+				sum := sdk.Coins{}
+				for _, c := range x.inputsOf(in.name) {
+					if c.Amount.IsPositive() {
+						sum = sum.Add(c)
+					}
+				}
+				if !sum.IsZero() {
+					if err = e.fund(ctx, in.addr, sum); err != nil {
+						err = fmt.Errorf("fund %s: %w", in.name, err)
+						return
+					}
+				}
 			}
 		}
 	}
@@ -267,11 +300,49 @@ func (e *mkrsendEnv) setup(ws []string, viaBank bool) (ctx sdk.Context, from, to
 			mk.AddSendDeny(ctx, maddr, e.addr(d))
 		}
 	}
+	attrTargets := []sdk.AccAddress{to}
+	if x != nil {
+		for _, n := range x.rto {
+			attrTargets = append(attrTargets, e.addr(n))
+		}
+	}
 	for _, n := range mkrsendList(kvArg(ws, "rattrs"), "|") {
-		at := attrtypes.Attribute{Name: n, Value: []byte("v"), Address: to.String(), AttributeType: attrtypes.AttributeType_String}
-		if err = e.app.AttributeKeeper.SetAttribute(ctx, at, e.owner); err != nil {
-			err = fmt.Errorf("SetAttribute(%s): %w", n, err)
-			return
+		for _, target := range attrTargets {
+			at := attrtypes.Attribute{Name: n, Value: []byte("v"), Address: target.String(), AttributeType: attrtypes.AttributeType_String}
+			if err = e.app.AttributeKeeper.SetAttribute(ctx, at, e.owner); err != nil {
+				err = fmt.Errorf("SetAttribute(%s): %w", n, err)
+				return
+			}
+		}
+	}
+	if x != nil {
+		// what the OTHER modules contribute to a bank movement: coins on hold (hold module's locked-coins
+		// getter), sanctioned addresses and quarantine opt-ins (the two restrictions appended after the
+		// marker's)
+		if !x.hold.IsZero() {
+			if err = e.app.HoldKeeper.AddHold(ctx, from, x.hold, "verif"); err != nil {
+				err = fmt.Errorf("AddHold: %w", err)
+				return
+			}
+		}
+		for _, n := range x.sanc {
+			if err = e.app.SanctionKeeper.SanctionAddresses(ctx, e.addr(n)); err != nil {
+				err = fmt.Errorf("SanctionAddresses(%s): %w", n, err)
+				return
+			}
+		}
+		for _, n := range x.quar {
+			if err = e.app.QuarantineKeeper.SetOptIn(ctx, e.addr(n)); err != nil {
+				err = fmt.Errorf("SetOptIn(%s): %w", n, err)
+				return
+			}
+		}
+		for _, n := range x.qacc {
+			// the receiver auto-accepts from every paying address of this call
+			e.app.QuarantineKeeper.SetAutoResponse(ctx, e.addr(n), from, quarantine.AUTO_RESPONSE_ACCEPT)
+			for _, in := range x.ins {
+				e.app.QuarantineKeeper.SetAutoResponse(ctx, e.addr(n), in.addr, quarantine.AUTO_RESPONSE_ACCEPT)
+			}
 		}
 	}
 	if kvArg(ws, "bypass") == "1" {
@@ -299,7 +370,7 @@ func (e *mkrsendEnv) fund(ctx sdk.Context, addr sdk.AccAddress, coins sdk.Coins)
 }
 
 func (e *mkrsendEnv) execSend(ws []string) string {
-	ctx, from, to, coins, err := e.setup(ws, false)
+	ctx, from, to, coins, err := e.setup(ws, false, nil)
 	if err != nil {
 		return "err:setup " + err.Error()
 	}
@@ -316,7 +387,7 @@ func (e *mkrsendEnv) execSend(ws []string) string {
 }
 
 func (e *mkrsendEnv) execBank(ws []string) string {
-	ctx, from, to, coins, err := e.setup(ws, true)
+	ctx, from, to, coins, err := e.setup(ws, true, nil)
 	if err != nil {
 		return "err:setup " + err.Error()
 	}
@@ -375,6 +446,191 @@ func (e *mkrsendEnv) execBank(ws []string) string {
 	return "allow " + mv
 }
 
+// ---------------------------------------------------------------------------------------
+// bankx: the bank op with everything the app composes around the marker restriction
+
+type mkrsendIO struct {
+	name  string
+	addr  sdk.AccAddress
+	coins sdk.Coins
+}
+
+// mkrsendX are the extra fields of a `bankx` line.
+type mkrsendX struct {
+	ins, outs             []mkrsendIO // `<coins>@<addr>/<coins>@<addr>…`
+	hold                  sdk.Coins   // part of the sender's balance put on hold (HoldKeeper.AddHold)
+	sanc, quar, qacc, rto []string    // sanctioned / quarantine-opted-in / auto-accepting addresses; further holders of `rattrs`
+}
+
+// inputsOf is the (unmerged) concatenation of the coins of the inputs paid by `name`.
+func (x *mkrsendX) inputsOf(name string) sdk.Coins {
+	var cs sdk.Coins
+	for _, in := range x.ins {
+		if in.name == name {
+			cs = append(cs, in.coins...)
+		}
+	}
+	return cs
+}
+
+func (e *mkrsendEnv) parseIOs(s string) ([]mkrsendIO, error) {
+	var ios []mkrsendIO
+	for _, p := range mkrsendList(s, "/") {
+		i := strings.LastIndex(p, "@")
+		if i < 0 {
+			return nil, fmt.Errorf("bad input/output %q", p)
+		}
+		cs, err := mkrsendCoins(p[:i])
+		if err != nil {
+			return nil, err
+		}
+		ios = append(ios, mkrsendIO{name: p[i+1:], addr: e.addr(p[i+1:]), coins: cs})
+	}
+	return ios, nil
+}
+
+func (e *mkrsendEnv) parseX(ws []string) (*mkrsendX, error) {
+	x := &mkrsendX{}
+	var err error
+	if x.ins, err = e.parseIOs(kvArg(ws, "ins")); err != nil {
+		return nil, err
+	}
+	if x.outs, err = e.parseIOs(kvArg(ws, "outs")); err != nil {
+		return nil, err
+	}
+	if x.hold, err = mkrsendCoins(kvArg(ws, "hold")); err != nil {
+		return nil, err
+	}
+	x.sanc = mkrsendList(kvArg(ws, "sanc"), "|")
+	x.quar = mkrsendList(kvArg(ws, "quar"), "|")
+	x.qacc = mkrsendList(kvArg(ws, "qacc"), "|")
+	x.rto = mkrsendList(kvArg(ws, "rto"), "|")
+	return x, nil
+}
+
+// mkrsendBankResult names the outcome of a bank call: the marker restriction's refusal by its class,
+// a refusal of a restriction appended after it (sanction, quarantine) as `err:later`, the bank keeper's
+// own errors by sentinel.
+func mkrsendBankResult(err error) string {
+	if err == nil {
+		return "allow"
+	}
+	if cl := mkrsendClass(err); cl != "other" {
+		return "deny:" + cl
+	}
+	switch {
+	case errors.Is(err, sanctionerrors.ErrSanctionedAccount), strings.Contains(err.Error(), "already fully accepted"):
+		return "err:later"
+	case errors.Is(err, sdkerrors.ErrInvalidCoins):
+		return "err:invalid"
+	case errors.Is(err, sdkerrors.ErrInsufficientFunds):
+		return "err:funds"
+	case errors.Is(err, banktypes.ErrNoInputs):
+		return "err:noinputs"
+	case errors.Is(err, banktypes.ErrNoOutputs):
+		return "err:nooutputs"
+	case errors.Is(err, banktypes.ErrManyToMany):
+		return "err:manytomany"
+	case errors.Is(err, banktypes.ErrInputOutputMismatch):
+		return "err:mismatch"
+	case errors.Is(err, sdkerrors.ErrUnknownAddress):
+		return "err:nomodacc"
+	}
+	return "err:other"
+}
+
+// execBankX runs one movement through the real bank keeper with the app's real composed send
+// restriction (marker, then sanction, then quarantine) and the real locked-coins getters (hold), and
+// prints the result class followed by the balances AFTER the call of every account the call can touch
+// (paying addresses, receivers, the quarantine funds holder) in every denom involved.
+func (e *mkrsendEnv) execBankX(ws []string) string {
+	x, err := e.parseX(ws)
+	if err != nil {
+		return "err:setup " + err.Error()
+	}
+	ctx, from, to, coins, err := e.setup(ws, true, x)
+	if err != nil {
+		return "err:setup " + err.Error()
+	}
+	bk := e.app.BankKeeper
+	via := kvArg(ws, "via")
+	ins, outs := x.ins, x.outs
+	if len(ins) == 0 {
+		ins = []mkrsendIO{{name: kvArg(ws, "from"), addr: from, coins: coins}}
+	}
+	if len(outs) == 0 {
+		outs = []mkrsendIO{{name: kvArg(ws, "to"), addr: to, coins: coins}}
+	}
+	opErr, panicked := Try(ctx, func(c sdk.Context) error {
+		switch via {
+		case "delegate":
+			pool := map[string]string{"bp:bonded": "bonded_tokens_pool", "bp:notbonded": "not_bonded_tokens_pool"}[kvArg(ws, "to")]
+			if pool == "" {
+				return fmt.Errorf("delegate: receiver is not a staking pool")
+			}
+			return bk.DelegateCoinsFromAccountToModule(c, from, pool, coins)
+		case "send":
+			return bk.SendCoins(c, from, to, coins)
+		}
+		bi := make([]banktypes.Input, len(ins))
+		for i, in := range ins {
+			bi[i] = banktypes.Input{Address: in.addr.String(), Coins: in.coins}
+		}
+		bo := make([]banktypes.Output, len(outs))
+		for i, o := range outs {
+			bo[i] = banktypes.Output{Address: o.addr.String(), Coins: o.coins}
+		}
+		return bk.InputOutputCoinsProv(c, bi, bo)
+	})
+	if panicked != "" {
+		return "panic:" + panicked
+	}
+	// denoms and accounts in order of first appearance
+	var denoms, accts []string
+	seenD, seenA := map[string]bool{}, map[string]bool{}
+	addCoins := func(cs sdk.Coins) {
+		for _, c := range cs {
+			if !seenD[c.Denom] {
+				seenD[c.Denom] = true
+				denoms = append(denoms, c.Denom)
+			}
+		}
+	}
+	addAcct := func(n string) {
+		if !seenA[n] {
+			seenA[n] = true
+			accts = append(accts, n)
+		}
+	}
+	if fs := kvArg(ws, "fund"); fs != "" {
+		fc, _ := mkrsendCoins(fs)
+		addCoins(fc)
+	}
+	addCoins(coins)
+	addAcct(kvArg(ws, "from"))
+	addAcct(kvArg(ws, "to"))
+	for _, in := range x.ins {
+		addCoins(in.coins)
+		addAcct(in.name)
+	}
+	for _, o := range x.outs {
+		addCoins(o.coins)
+		addAcct(o.name)
+	}
+	addAcct("bp:quarantine")
+	parts := []string{mkrsendBankResult(opErr)}
+	for _, n := range accts {
+		var cs []string
+		for _, d := range denoms {
+			if b := bk.GetBalance(ctx, e.addr(n), d); !b.Amount.IsZero() {
+				cs = append(cs, b.Amount.String()+d)
+			}
+		}
+		parts = append(parts, n+"="+JoinOr(cs, ","))
+	}
+	return strings.Join(parts, " ")
+}
+
 func (e *mkrsendEnv) exec(line string) string {
 	ws := strings.Fields(line)
 	if len(ws) == 0 {
@@ -385,6 +641,8 @@ func (e *mkrsendEnv) exec(line string) string {
 		return e.execSend(ws[1:])
 	case "bank":
 		return e.execBank(ws[1:])
+	case "bankx":
+		return e.execBankX(ws[1:])
 	case "match":
 		if len(ws) != 3 {
 			return "bad-op"
@@ -534,7 +792,7 @@ func gcd(a, b int) int {
 }
 
 // mkrsendGen builds the op line (without the leading op word) for stratum `idx`.
-func mkrsendGen(r *RNG, idx int, out *Out) (fields string, bankable bool) {
+func mkrsendGen(r *RNG, idx int, out *Out) (fields string, bankable bool, g *mkrsendCase) {
 	x := idx
 	take := func(n int) int { v := x % n; x /= n; return v }
 	sv := take(mkrsendSlotValues)
@@ -716,6 +974,7 @@ func mkrsendGen(r *RNG, idx int, out *Out) (fields string, bankable bool) {
 	}
 	sort.Strings(denoms)
 	var cs []string
+	var amts []int
 	for _, d := range denoms {
 		amt := 1 + r.Intn(500)
 		if r.Chance(3) {
@@ -723,6 +982,7 @@ func mkrsendGen(r *RNG, idx int, out *Out) (fields string, bankable bool) {
 			bankable = false
 		}
 		cs = append(cs, fmt.Sprintf("%d%s", amt, d))
+		amts = append(amts, amt)
 	}
 	if len(cs) > 1 && r.Chance(3) {
 		i, j := r.Intn(len(cs)), r.Intn(len(cs))
@@ -746,7 +1006,263 @@ func mkrsendGen(r *RNG, idx int, out *Out) (fields string, bankable bool) {
 	}
 	fields = fmt.Sprintf("bypass=%d fg=%d from=%s to=%s agents=%s coins=%s markers=%s rattrs=%s",
 		byp, fg, from, to, JoinOr(agents, "|"), strings.Join(cs, ","), JoinOr(ms, "|"), JoinOr(rattrs, "|"))
+	g = &mkrsendCase{
+		head: fmt.Sprintf("bypass=%d fg=%d from=%s to=%s agents=%s", byp, fg, from, to, JoinOr(agents, "|")),
+		tail: fmt.Sprintf("markers=%s rattrs=%s", JoinOr(ms, "|"), JoinOr(rattrs, "|")),
+		from: from, to: to, senderKind: sk, denoms: denoms, amts: amts,
+	}
+	for _, d := range ds {
+		if slots[d].kind == "marker" {
+			g.markerAddrs = append(g.markerAddrs, "mk:"+d)
+		}
+	}
 	return
+}
+
+// mkrsendCase is what the `bankx` generator keeps of a generated configuration.
+type mkrsendCase struct {
+	head, tail  string // the op line's fields before / after `coins=`
+	from, to    string
+	senderKind  string
+	denoms      []string // sorted
+	amts        []int    // the `send` line's amounts (all positive when the case is bankable)
+	markerAddrs []string // addresses of the marker accounts of the configuration
+}
+
+type mkrsendAmt map[string]int
+
+func (a mkrsendAmt) render() string {
+	var ds []string
+	for d := range a {
+		ds = append(ds, d)
+	}
+	sort.Strings(ds)
+	var cs []string
+	for _, d := range ds {
+		cs = append(cs, fmt.Sprintf("%d%s", a[d], d))
+	}
+	return JoinOr(cs, ",")
+}
+
+func (a mkrsendAmt) add(b mkrsendAmt) {
+	for d, x := range b {
+		a[d] += x
+	}
+}
+
+func mkrsendRenderIOs(names []string, coins []mkrsendAmt) string {
+	var ps []string
+	for i, n := range names {
+		ps = append(ps, coins[i].render()+"@"+n)
+	}
+	return strings.Join(ps, "/")
+}
+
+// mkrsendGenX turns a bankable configuration into a `bankx` line: one input and 2-4 outputs with
+// different receivers (plain accounts, the configuration's markers, fee collector, module accounts, the
+// same receiver twice, the sender itself), or 2-3 inputs (the sender twice / other payers) and one
+// output, or a single send / one-pair multi-send / delegation; on top of that part of the sender's
+// balance on hold (enough left, exactly enough left, one short), a sanctioned sender (or a sanctioned
+// receiver, which must not matter), receivers that opted into quarantine (some auto-accepting the
+// sender), and a minority of malformed calls (sums differ, an invalid output, under-funded).
+func mkrsendGenX(r *RNG, g *mkrsendCase, out *Out) string {
+	randCoins := func() mkrsendAmt {
+		a := mkrsendAmt{}
+		for _, d := range g.denoms {
+			if r.Chance(60) {
+				a[d] = 1 + r.Intn(200)
+			}
+		}
+		if len(a) == 0 {
+			a[Pick(r, g.denoms)] = 1 + r.Intn(200)
+		}
+		return a
+	}
+	base := mkrsendAmt{}
+	for i, d := range g.denoms {
+		base[d] = g.amts[i]
+	}
+	isPool := g.to == "bp:bonded" || g.to == "bp:notbonded"
+	plain := []string{"B", "C", "D", "E"}
+	var extra []string // further fields
+	coins := base      // the `coins=` field
+	need := base       // what the sender pays
+	receivers := []string{g.to}
+	payers := []string{g.from}
+	mode := "single"
+	via := "send"
+	switch m := r.Intn(100); {
+	case m < 45 && !isPool:
+		mode, via = "multiout", "multi"
+		k := 2 + r.Intn(3)
+		for len(receivers) < k {
+			switch p := r.Intn(100); {
+			case p < 50:
+				receivers = append(receivers, Pick(r, plain))
+			case p < 70 && len(g.markerAddrs) > 0:
+				receivers = append(receivers, Pick(r, g.markerAddrs))
+			case p < 78:
+				receivers = append(receivers, "fc")
+			case p < 86:
+				receivers = append(receivers, Pick(r, mkrsendBpAccts))
+			case p < 94:
+				receivers = append(receivers, g.to)
+			default:
+				receivers = append(receivers, g.from)
+			}
+		}
+		sum := mkrsendAmt{}
+		oc := make([]mkrsendAmt, k)
+		for i := range oc {
+			oc[i] = randCoins()
+			sum.add(oc[i])
+		}
+		coins, need = sum, sum
+		switch q := r.Intn(100); {
+		case q < 4: // the outputs give more than the input takes
+			coins = mkrsendAmt{}
+			coins.add(sum)
+			d := Pick(r, g.denoms)
+			if coins[d] > 1 {
+				coins[d]--
+			} else {
+				coins[d]++
+			}
+			need = coins
+			out.Count("x:mismatch")
+		case q < 7: // an output with a zero coin
+			oc[r.Intn(k)][Pick(r, g.denoms)] = 0
+			out.Count("x:invalid-output")
+		}
+		extra = append(extra, "outs="+mkrsendRenderIOs(receivers, oc))
+		var rto []string
+		seen := map[string]bool{g.to: true}
+		for _, n := range receivers[1:] {
+			if !seen[n] && r.Chance(55) {
+				rto = append(rto, n)
+			}
+			seen[n] = true
+		}
+		if len(rto) > 0 {
+			extra = append(extra, "rto="+strings.Join(rto, "|"))
+		}
+	case m < 60 && !isPool:
+		mode, via = "multiin", "multi"
+		k := 2 + r.Intn(2)
+		for len(payers) < k {
+			if r.Chance(50) {
+				payers = append(payers, g.from)
+			} else {
+				payers = append(payers, Pick(r, []string{"C", "D"}))
+			}
+		}
+		sum, mine := mkrsendAmt{}, mkrsendAmt{}
+		ic := make([]mkrsendAmt, k)
+		for i := range ic {
+			ic[i] = randCoins()
+			sum.add(ic[i])
+			if payers[i] == g.from {
+				mine.add(ic[i])
+			}
+		}
+		coins, need = sum, mine
+		if r.Chance(4) {
+			coins = mkrsendAmt{}
+			coins.add(sum)
+			coins[Pick(r, g.denoms)]++
+			out.Count("x:mismatch")
+		}
+		extra = append(extra, "ins="+mkrsendRenderIOs(payers, ic))
+	default:
+		if isPool {
+			via = "delegate"
+		} else if r.Bool() {
+			via = "inout"
+		}
+	}
+	out.Count("opx:" + mode + "/" + via)
+	// the sender's funds, and what is on hold of them
+	var needDenoms []string
+	for d := range need {
+		needDenoms = append(needDenoms, d)
+	}
+	sort.Strings(needDenoms)
+	switch q := r.Intn(100); {
+	case q < 35:
+		d := Pick(r, needDenoms)
+		h := 1 + r.Intn(need[d])
+		left := Pick(r, []int{h, h, h - 1, 0, h + 3})
+		fund := mkrsendAmt{}
+		fund.add(need)
+		fund[d] += left
+		if r.Chance(30) { // and something of another denom on hold too, fully covered
+			d2 := Pick(r, needDenoms)
+			if d2 != d {
+				fund[d2] += 9
+				extra = append(extra, "fund="+fund.render(), fmt.Sprintf("hold=%s", mkrsendAmt{d: h, d2: 9}.render()))
+			} else {
+				extra = append(extra, "fund="+fund.render(), fmt.Sprintf("hold=%d%s", h, d))
+			}
+		} else {
+			extra = append(extra, "fund="+fund.render(), fmt.Sprintf("hold=%d%s", h, d))
+		}
+		if left >= h {
+			out.Count("x:hold/enough-left")
+		} else {
+			out.Count("x:hold/short")
+		}
+	case q < 41:
+		fund := mkrsendAmt{}
+		fund.add(need)
+		d := Pick(r, needDenoms)
+		if fund[d]--; fund[d] == 0 {
+			delete(fund, d)
+		}
+		extra = append(extra, "fund="+fund.render())
+		out.Count("x:underfunded")
+	case q < 50:
+		fund := mkrsendAmt{}
+		fund.add(need)
+		fund[Pick(r, needDenoms)] += 7
+		extra = append(extra, "fund="+fund.render())
+		out.Count("x:overfunded")
+	}
+	// sanction: only non-module accounts can be sanctioned
+	sanctionable := g.senderKind == "plain" || g.senderKind == "marker"
+	switch q := r.Intn(100); {
+	case q < 12 && sanctionable:
+		extra = append(extra, "sanc="+g.from)
+		out.Count("x:sanctioned-sender")
+	case q < 16 && len(payers) > 1 && payers[len(payers)-1] != g.from:
+		extra = append(extra, "sanc="+payers[len(payers)-1])
+		out.Count("x:sanctioned-other-payer")
+	case q < 20 && (g.to == "B"):
+		extra = append(extra, "sanc=B")
+		out.Count("x:sanctioned-receiver")
+	}
+	// quarantine
+	if r.Chance(32) {
+		var qs, qa []string
+		seen := map[string]bool{}
+		for _, n := range receivers {
+			if !seen[n] && r.Chance(60) {
+				qs = append(qs, n)
+				if r.Chance(25) {
+					qa = append(qa, n)
+				}
+			}
+			seen[n] = true
+		}
+		if len(qs) > 0 {
+			extra = append(extra, "quar="+strings.Join(qs, "|"))
+			out.Count("x:quarantined-receiver")
+		}
+		if len(qa) > 0 {
+			extra = append(extra, "qacc="+strings.Join(qa, "|"))
+			out.Count("x:quarantine-autoaccept")
+		}
+	}
+	return fmt.Sprintf("%s coins=%s %s via=%s %s", g.head, coins.render(), g.tail, via, strings.Join(extra, " "))
 }
 
 var mkrsendMatchAtoms = []string{"a", "kyc", "pb", "*", "", "x*", "**", "kyc.pb", "*.kyc.pb", "*.", ".", "*.pb", "aa"}
@@ -789,7 +1305,7 @@ func mkrsendDrive(t *testing.T, rng *RNG, n int, out *Out) {
 			continue
 		}
 		idx = (idx + stride) % mkrsendStrata
-		fields, bankable := mkrsendGen(rng, idx, out)
+		fields, bankable, g := mkrsendGen(rng, idx, out)
 		res := emit("send " + fields)
 		out.Count("op:send")
 		out.Count("result:" + res)
@@ -807,6 +1323,19 @@ func mkrsendDrive(t *testing.T, rng *RNG, n int, out *Out) {
 			bres := emit("bank " + fields + " via=" + via)
 			out.Count("op:bank/" + via)
 			out.Count("bankresult:" + strings.Join(strings.Fields(bres)[:1], "") + "/" + bres[strings.LastIndex(bres, " ")+1:])
+		}
+		if bankable && i%6 == 3 {
+			line := strings.TrimSpace(mkrsendGenX(rng, g, out))
+			bres := emit("bankx " + line)
+			out.Count("op:bankx")
+			cls := strings.Fields(bres)[0]
+			if strings.HasPrefix(cls, "deny:") {
+				cls = "deny"
+			}
+			out.Count("bankxresult:" + cls)
+			if strings.HasPrefix(bres, "err:setup") || strings.HasPrefix(bres, "err:other") || strings.HasPrefix(bres, "panic:") {
+				t.Fatalf("bankx: %s -> %s", line, bres)
+			}
 		}
 	}
 }
